@@ -372,10 +372,21 @@ def run_case(ns, ctx, case):
                     if pmodel[o]["req"]:
                         pmodel[o]["grad"] = "zero"
             else:
+                shared_by_shape = {}
+                share = rng.random() < 0.35         # the caller hands ONE gradient tensor to every parameter of the same shape (also outside this node)
+                if share:
+                    features.add("shared-gradient-tensor")
+                    for o_, p_ in params.items():
+                        if not pmodel[o_].get("int") and o_ not in ps and rng.random() < 0.5:
+                            shp_ = tuple(p_.shape)
+                            shared_by_shape.setdefault(shp_, T(np.ones(shp_, dtype=np.float32)))
+                            p_.grad = shared_by_shape[shp_]
+                            pmodel[o_]["grad"] = "ones"
                 for o in ps:
                     if pmodel[o].get("int"):
                         continue
-                    params[o].grad = T(np.ones(params[o].shape, dtype=np.float32))
+                    shp_ = tuple(params[o].shape)
+                    params[o].grad = shared_by_shape.setdefault(shp_, T(np.ones(shp_, dtype=np.float32))) if share else T(np.ones(params[o].shape, dtype=np.float32))
                     pmodel[o]["grad"] = "ones"
             a_ctx.__exit__(None, None, None)
         except Exception as e:
